@@ -421,12 +421,18 @@ def r5_closure(F, res, rid):
             continue
         a1 = [v for t, v in p.cond if t[0] == "bin" and t[1] == "Lt" and has_field(t[2], "position", "LRItem")]
         # "FIRST(suffix) contains EMPTY": `contains(EMPTY)` or the bool that `remove(EMPTY)` returns
-        a2 = [v for t, v in p.cond if (is_call(t, "BTreeSet::<T, A>::contains") or is_call(t, "BTreeSet::<T, A>::remove"))
-              and len(t[2]) > 1 and has_field(t[2][1], "empty_index")]
         fc = calls(p, "table::firsts")
         wf0 = calls(p, "LRItem::with_follow")
         if not wf0:
             continue
+        a2all = [(t, v) for t, v in p.cond if (is_call(t, "BTreeSet::<T, A>::contains") or is_call(t, "BTreeSet::<T, A>::remove"))
+                 and len(t[2]) > 1 and has_field(t[2][1], "empty_index")]
+        # ... asked of FIRST(suffix) itself (the set the new items get), not of some other set
+        a2 = [v for t, v in a2all if is_call(t[2][0], "table::firsts") and fc and idiom.same(t[2][0][2][2], fc[0][2][2])]
+        if a2all and not a2:
+            res.violation(rid, "empty-test", "closure decides whether to add the item's lookaheads by asking %s for EMPTY, expected "
+                          "FIRST of the whole rest of the production" % fmt(a2all[0][0][2][0])[:100], f.loc())
+            return
         # abstract value of the lookahead set handed to the new items: (starts from FIRST(suffix), EMPTY removed, item's
         # lookaheads added), read off the operations on that object in path order
         base = wf0[0][2][3]
@@ -569,9 +575,15 @@ def r9_propagation(F, res, rid):
         res.violation(rid, "links", "lookaheads are not propagated along both GOTO and SHIFT transitions (gotos: %s, chain: %s, shift "
                       "targets: %s)" % (gotos, have_chain, shift_cl), f.loc())
     # every round re-closes every state
-    reclose = any(callee(t).endswith("LRState::<'g>::closure") for _, t in f.calls())
-    if reclose:
-        res.ok(rid, "reclose", f.loc())
+    cblocks = [b for b, t in f.calls() if callee(t).endswith("LRState::<'g>::closure")]
+    # ... in every round: inside the loop that the fixpoint flag controls (the outermost loop of the function)
+    floops = loops_of(f)
+    outer = max(floops.items(), key=lambda kv: len(kv[1])) if floops else None
+    if cblocks and outer and all(b in outer[1] for b in cblocks):
+        res.ok(rid, "reclose", f.loc(), "closure() of every state inside the fixpoint loop")
+    elif cblocks and outer:
+        res.violation(rid, "reclose", "the states are re-closed outside the propagation loop: lookaheads that reach a kernel item in a "
+                      "later round never reach that state's closure items", f.loc())
     else:
         res.violation(rid, "reclose", "propagation rounds do not re-close the states (lookaheads never reach closure items)", f.loc())
 
@@ -608,6 +620,45 @@ def r8_merge(F, res, rid):
         res.violation(rid, "all-or-nothing", "merge_state can return false after lookaheads were already merged into the old state", f.loc())
     else:
         res.ok(rid, "all-or-nothing", f.loc(), "no `return false` is reachable from the merging extend")
+    # the weak-compatibility test ranges over every reducing item and every OTHER item: the only pairs the scan may skip are
+    # (non-reducing item, *) in the outer loop and (x, x) in the inner one (Definition 2.29 quantifies over all pairs)
+    fl = loops_of(f)
+    inter_blocks = [b for b, t2 in f.calls() if callee(t2).endswith("::intersection")]
+    scan_loops = sorted([(h, body) for h, body in fl.items() if inter_blocks and any(b in body for b in inter_blocks)], key=lambda kv: len(kv[1]))
+    if len(scan_loops) >= 3:
+        (h_mid, b_mid), (h_out, b_out) = scan_loops[1], scan_loops[2]
+        def skips(h, body):
+            out = set()
+            for p in Sim(f, F, max_paths=100000).run(entry=h):
+                if not (p.events and p.events[-1] == ("backedge", h)) or any(e[0] == "call" and e[1].endswith("::intersection") for e in p.events):
+                    continue
+                if not set(p.blocks) <= set(body) | {h}:
+                    continue
+                cs = []
+                for tm, v in p.cond:
+                    if tm[0] == "discr" and is_call(tm[1], "Iterator>::next"):
+                        continue
+                    cs.append((mir.short(tm[1]) if tm[0] == "call" else fmt(tm)[:40], v))
+                if cs:
+                    out.add(tuple(cs))
+            return out
+        s_mid, s_out = skips(h_mid, b_mid), skips(h_out, b_out)
+        def is_eq_skip(c):
+            return len(c) == 1 and ((c[0][0].endswith("::eq") and c[0][1] == 1) or (c[0][0].endswith("::ne") and c[0][1] == 0))
+        def is_nonreducing_skip(c):
+            return len(c) == 1 and c[0][0].endswith("is_reducing") and c[0][1] == 0
+        bad_mid = [c for c in s_mid if not is_eq_skip(c)]
+        bad_out = [c for c in s_out if not is_nonreducing_skip(c) and not any(is_eq_skip((x,)) for x in c)]
+        if not s_mid:
+            res.anchor_lost(rid, "merge_state: skip of the identical item in the compatibility scan not recognised", f.loc())
+        elif bad_mid or bad_out:
+            res.violation(rid, "scan-pairs", "the weak-compatibility scan skips item pairs under %s: every reducing item must be tested "
+                          "against every other item (kernel items that are not complete still contribute reductions through their "
+                          "closure)" % sorted(bad_mid + bad_out)[:2], f.loc())
+        else:
+            res.ok(rid, "scan-pairs", f.loc(), "skips only non-reducing items (outer) and the item itself (inner)")
+    else:
+        res.anchor_lost(rid, "merge_state: nested loops of the compatibility scan not recognised", f.loc())
     tt = [v for p in paths for t, v in p.cond if is_call(t, "::ne") and any(has_field(a, "table_type", "Settings") for a in t[2])
           or (is_call(t, "::eq") and any(has_field(a, "table_type", "Settings") for a in t[2]))]
     if tt:
@@ -705,7 +756,14 @@ def r13_lr_rejects(F, res, rid):
             r = [e[1] for e in p.events if e[0] == "return"]
             if r and r[0][0] == "bin" and r[0][1] == "Gt" and has_call(r[0][2], "::len") and r[0][3] == ("const", 1):
                 okf = True
-    if okf:
+    gnames = {callee(t) for h in [g] + F.all_nested_closures(g) for _, t in h.calls()}
+    dropping = sorted(mir.short(n) for n in gnames if any(n.endswith(k) for k in ("Iterator::skip", "Iterator::take", "Iterator::step_by",
+                                                                                    "Iterator::skip_while", "Iterator::take_while", "Iterator::rev")))
+    nfilters = len([1 for h in [g] + F.all_nested_closures(g) for _, t in h.calls() if callee(t).endswith("Iterator::filter")])
+    if dropping or nfilters > 1:
+        res.violation(rid, "conflict-definition", "get_conflicts does not look at every cell of every state (%s%s): conflicts in the "
+                      "skipped cells are never reported" % (", ".join(dropping), "; %d filters" % nfilters if nfilters > 1 else ""), g.loc())
+    elif okf:
         res.ok(rid, "conflict-definition", g.loc(), "cells with more than one action")
     else:
         res.violation(rid, "conflict-definition", "get_conflicts no longer reports exactly the cells with more than one action", g.loc())
